@@ -83,6 +83,13 @@ end Opus.RangeCoder
 
 namespace Opus.RangeCoder
 
+/-- Field-wise equality of contexts. -/
+theorem ctx_eq (x y : Ctx) (h1 : x.buf = y.buf) (h2 : x.storage = y.storage) (h3 : x.endOffs = y.endOffs)
+    (h4 : x.endWindow = y.endWindow) (h5 : x.nendBits = y.nendBits) (h6 : x.nbitsTotal = y.nbitsTotal)
+    (h7 : x.offs = y.offs) (h8 : x.rng = y.rng) (h9 : x.val = y.val) (h10 : x.ext = y.ext)
+    (h11 : x.rem = y.rem) (h12 : x.error = y.error) : x = y := by
+  cases x; cases y; simp_all
+
 /-! ### Fields preserved by the byte-output helpers -/
 
 section frame
